@@ -217,6 +217,15 @@ def py_prepare_text(text, meta, seed=None):
                         "site": B.py_site_kind(sym, a["scope"]) + (f"({sym.access(a['scope'], a['name'])})" if sym.access(a["scope"], a["name"]) else "") + "(assignment-target)",
                         "decl": B.py_decl_kind(sym, meta, a["scope"], st, a["name"]),
                         "csite": B.py_coarse_site(sym, a["scope"], a["name"]) + "(assignment-target)", "cdecl": B.py_coarse_decl(sym, a["scope"], st)}
+    for key, g in meta["scopestmts"].items():
+        # the name in a `global x` / `nonlocal x` statement is an occurrence as well (symtable is its oracle)
+        st = sym.owner(g["scope"], g["name"])
+        if st in ("?", None):
+            continue
+        occ[key] = {"kind": "scopestmt", "stmt": g["kind"], "name": g["name"], "line": g["line"], "scope": g["scope"], "owner": st,
+                    "site": B.py_site_kind(sym, g["scope"]) + f"({g['kind']}-stmt)(the-statement-itself)",
+                    "decl": B.py_decl_kind(sym, meta, g["scope"], st, g["name"]),
+                    "csite": B.py_coarse_site(sym, g["scope"], g["name"]) + "(the-statement-itself)", "cdecl": B.py_coarse_decl(sym, g["scope"], st)}
     prog["occ"] = occ
     prog["owners"] = {k: sym.owner(o["scope"], o["name"]) for k, o in meta["occ"].items()}
     return prog
@@ -295,6 +304,9 @@ def judge_py_program(prog, view, s2, lang="python"):
         if o.get("cuse"):
             # a class-body read `uN = name`: lian lowers it to field_write(%class, uN, name) carrying the class statement's line
             hits = [r for r in fields.get(tag, []) if r.get("source") == o["name"]]
+        elif o["kind"] == "scopestmt":
+            hits = [r for r in view.by_id.values() if r.get("operation") == o["stmt"] + "_stmt" and r.get("name") == o["name"]
+                    and r.get("start_row") is not None and int(r["start_row"]) == o["line"]]
         elif o["kind"] == "assign":
             if meta["scopes"][str(o["scope"])]["kind"] == "class":
                 continue        # a class attribute assignment is a field_write on %class, not a name binding
